@@ -55,9 +55,15 @@ MUTS = {
     # /s/joinchat reads path[2] whatever the length
     "M14-tg-s-joinchat-guard": ("ural/telegram.py", '            if path[1] == "joinchat":\n                if len(path) == 3:\n                    return TelegramGroup(id=path[2])\n                else:\n                    return None',
                                 '            if path[1] == "joinchat":\n                return TelegramGroup(id=path[2])'),
+    # revert of f20322b: /s//<id> gives a message of the channel ''
+    "M15-tg-empty-name": ("ural/telegram.py", "elif len(path) == 3 and path[1] and is_telegram_message_id(path[2]):",
+                          "elif len(path) == 3 and is_telegram_message_id(path[2]):"),
     # ---- refactorings that keep the behaviour: the check must stay green
     "R1-tw-startswith-slice": ("ural/twitter.py", 'if username.startswith("@"):', 'if username[:1] == "@":'),
     "R2-tg-len-compare": ("ural/telegram.py", "            if len(path) < 2:", "            if not len(path) >= 2:"),
+    # the routed path is cut by slicing (all leading slashes go, pathsplit drops them anyway)
+    "R4-tw-hashbang-slice": ("ural/twitter.py", 'url = "twitter.com/" + re.sub(TWITTER_FRAGMENT_ROUTING_RE, "", parsed.fragment)',
+                                 'url = "twitter.com/" + parsed.fragment[1:].lstrip("/")'),
     "R3-ig-compiled-search": ("ural/instagram.py", "return bool(re.search(INSTAGRAM_POST_SHORTCODE_RE, value))", "return INSTAGRAM_POST_SHORTCODE_RE.search(value) is not None"),
 }
 
